@@ -1,7 +1,72 @@
-import TuModel.Model.ByteTok
-import TuModel.Model.CharTok
-import TuModel.Model.Bpe
+/-
+  C03 — BPE merges are the canonical ones: the heap-driven loop `merge_bytes` (model
+  `Tu.mergeWordImpl`, Model/Bpe.lean) computes, for every well-formed merge table and every word of
+  bytes, exactly the segmentation of the property's own definition `Tu.mergeWordSpec`: repeatedly
+  merge, among all adjacent token pairs whose concatenation is a table key, the one with the lowest
+  merge id (leftmost on ties), until no adjacent pair is mergeable.
+
+  Proof (Lemmas/BpeL1 … BpeL4): refinement invariant `Tu.Inv` between an `MState` and the token list
+  `live st.bytes` (the non-empty cells in order):
+    * every cell is dead or carries the id of its bytes, and an id determines its bytes
+      (`IdOK.inj`, uses that merge ids are unique among all table entries: `wf_ids_unique`);
+    * every heap entry denotes two cells with only dead cells in between and records ids whose byte
+      strings concatenate to `merged`, a key with id `mid`; hence an entry that passes the staleness
+      test denotes two adjacent live cells and their current concatenation (`valid_entry`);
+    * every mergeable adjacent pair of live cells has a heap entry with the current ids.
+  The popped entry is minimal in `(mid, fst)` (`heapMax_min`), so the first non-stale one is the
+  `bestPair` of the token list (`pop_valid_best`); `heap.length + 2 * #live` decreases in every
+  iteration, so the fuel `3 * |w| + 3` is never exhausted (`mergeLoop_spec`).
+-/
+import TuModel.Lemmas.BpeL4
 namespace Tu.C03
 open Tu
-theorem placeholder_uniq_nil : uniq [] = [] := rfl
+
+/-- the heap-driven loop computes the canonical lowest-id-leftmost segmentation -/
+theorem mergeWordImpl_eq_spec (t : MTable) (w : List Nat) (hwf : wfTable t = true) (hw : ∀ b ∈ w, b < 256) :
+    mergeWordImpl t w = mergeWordSpec t w :=
+  (mergeWordImpl_eq_spec' t w hwf hw).1
+
+/-- the result of the canonical procedure is terminal: no adjacent pair of result tokens is a table key -/
+theorem specLoop_terminal (t : MTable) (w : List Nat) :
+    bestPair t (specLoop t w.length (w.map (fun b => [b]))) 0 = none :=
+  specLoop_terminal_aux t w.length _ (by simp)
+
+/-- `bestPair … = none` says what it should: no adjacent pair of tokens concatenates to a key -/
+theorem terminal_iff (t : MTable) (toks : List (List Nat)) :
+    bestPair t toks 0 = none ↔
+      ∀ k, k + 1 < toks.length → tlookup t (toks.getD k [] ++ toks.getD (k + 1) []) = none :=
+  ⟨bestPair_none t toks 0, bestPair_of_none t toks 0⟩
+
+/-- `bestPair` picks a mergeable position with the lowest merge id, leftmost on ties -/
+theorem bestPair_is_min (t : MTable) (toks : List (List Nat)) (m k : Nat) :
+    bestPair t toks 0 = some (m, k) ↔
+      (k + 1 < toks.length ∧ tlookup t (toks.getD k [] ++ toks.getD (k + 1) []) = some m ∧
+        ∀ k' m', k' + 1 < toks.length → tlookup t (toks.getD k' [] ++ toks.getD (k' + 1) []) = some m' →
+          m < m' ∨ (m = m' ∧ k ≤ k')) := by
+  constructor
+  · intro h
+    obtain ⟨k0, hk0, hk1, hk2⟩ := bestPair_some t toks 0 m k h
+    have hk : k = k0 := by omega
+    subst hk
+    refine ⟨hk1, hk2, ?_⟩
+    intro k' m' hk' hl'
+    have := bestPair_some_min t toks 0 m k h k' m' hk' hl'
+    omega
+  · intro ⟨h1, h2, h3⟩
+    have := bestPair_eq t toks 0 k m h1 h2 h3
+    rw [Nat.zero_add] at this; exact this
+
+/-- the fuel of the model's loop is never exhausted -/
+theorem mergeWordImpl_isSome (t : MTable) (w : List Nat) (hwf : wfTable t = true) (hw : ∀ b ∈ w, b < 256) :
+    (mergeWordImpl t w).isSome = true :=
+  (mergeWordImpl_eq_spec' t w hwf hw).2
+
+/-! non-vacuity: a well-formed table with chained merges; the theorems apply to it -/
+example : wfTable [([97, 98], 0), ([99, 100], 1), ([97, 98, 99], 2), ([97, 98, 99, 100], 3)] = true := by decide
+example : mergeWordImpl [([97, 98], 0), ([99, 100], 1), ([97, 98, 99], 2), ([97, 98, 99, 100], 3)]
+    [97, 98, 99, 100] = some [259] := by decide
+example : mergeWordSpec [([97, 98], 0), ([99, 100], 1), ([97, 98, 99], 2), ([97, 98, 99, 100], 3)]
+    [97, 98, 99, 100] = some [259] := by
+  rw [← mergeWordImpl_eq_spec _ _ (by decide) (by decide)]; decide
+
 end Tu.C03
